@@ -12,6 +12,15 @@ common.build_go()
 impl = common.Impl()
 gen_tables.regenerate(impl.call("automata"))
 impl.close()
+# the access table of C14 (translator harness/cmd/vaccess); a failure here is reported by ./check C14
+try:
+    from vlib import c14
+    c14.build_vaccess()
+    c14.regenerate(common.make_overlay())
+except Exception as e:
+    print("setup: access table not regenerated:", e)
 PY
-(cd lean && lake build ShkModel shkdrv)
+# the driver must build; property modules that no longer check are reported by their own ./check
+(cd lean && lake build shkdrv)
+(cd lean && lake build ShkModel) || echo "setup: some property modules do not build; the checks say which"
 echo setup done
